@@ -17,13 +17,13 @@ Definition enforces (cf : cfg) : Prop :=
   /\ (forall n, 12 <= n -> exists p, eval cf n [] prog_typeof = Err (Blame p)).
 
 (* variant 1: `$func` does not flip the polarity of the domain label -> the identity is blamed *)
-Lemma noflip_variant_refuted : ~ enforces (MkCfg false true).
+Lemma noflip_variant_refuted : ~ enforces (MkCfg false true false).
 Proof.
   intros [H _]. specialize (H 12 (le_n 12)). vm_compute in H. discriminate.
 Qed.
 
 (* variant 2: the typeof-like primops are not stopped by a seal -> an inspecting function is not blamed *)
-Lemma seethrough_variant_refuted : ~ enforces (MkCfg true false).
+Lemma seethrough_variant_refuted : ~ enforces (MkCfg true false false).
 Proof.
   intros [_ H]. destruct (H 12 (le_n 12)) as [p Hp]. vm_compute in Hp. discriminate.
 Qed.
@@ -78,3 +78,52 @@ Definition launder_fresh : tm :=
 
 Lemma distinct_keys_blame_laundering : eval cfg_real 30 [] launder_fresh = Err (Blame true).
 Proof. reflexivity. Qed.
+
+(* ------------------------------------------------------------------ deduplication of sealing contracts *)
+
+(* variant 3: an array contract that is the same occurrence as one already pending on the array is not
+   applied again (RuntimeContract::push_dedup before 88c71d0 did this even for contracts with polymorphic
+   parts).  A function applied to its own result then finds, on the second call, the seal of its domain
+   dropped while the unseal of its codomain is still there: it sees plain elements. *)
+Definition cfg_dedup : cfg := MkCfg true true true.
+
+Definition arrT : ty := TForall "a" KType (TArrow TBool (TArrow (TArr (TVar "a")) (TArr (TVar "a")))).
+Definition own_result : tm :=
+  Let "f" (Ann arrT (Lam "b" (Lam "l" (If (Var "b") (Var "l")
+                                    (Seq (Op2 Add (Op2 At (Var "l") (Num 0)) (Num 1)) (Var "l"))))))
+      (App (App (Var "f") (Bool false)) (App (App (Var "f") (Bool true)) (Arr [Num 1; Num 2]))).
+
+Lemma dedup_variant_refuted :
+  run_line cfg_dedup 60 own_result = "OK [#1,#2]"      (* the inspection of an `a` goes unnoticed *)
+  /\ run_line cfg_real 60 own_result = "ERR Blame+".
+Proof. split; vm_compute; reflexivity. Qed.
+
+(* why dropping is unsound: a sealing contract is not idempotent.  Applying the element contract of
+   `Array a` (negative occurrence) twice seals twice — the content of the outer seal is again a seal — so
+   that one unseal (the codomain occurrence) still leaves a sealed element. *)
+Theorem array_contract_twice_seals_twice :
+  forall n k l t p,
+    lookup_tyvar k (ltenv l) = Some p -> p <> lpol l ->
+    let once := wrap_elem (CVar k) l t in
+    let twice := wrap_elem (CVar k) l once in
+    force cfg_real (S n) twice = Ok (VSealed k (Th [("%e", once)] (Var "%e")) (flip l))
+    /\ force cfg_real (S (S n)) (Th [("%e", once)] (Var "%e"))
+       = Ok (VSealed k (Th [("%e", t)] (Var "%e")) (flip l)).
+Proof.
+  intros n k l t p Hk Hp.
+  assert (Hne : Bool.eqb p (lpol l) = false).
+  { destruct p, (lpol l); simpl; try reflexivity; exfalso; apply Hp; reflexivity. }
+  assert (Hw : forall m u, force cfg_real (S m) (wrap_elem (CVar k) l u)
+                           = Ok (VSealed k (Th [("%e", u)] (Var "%e")) (flip l))).
+  { intros m u. unfold wrap_elem. cbn [force eval step chk_with]. rewrite Hk, Hne. reflexivity. }
+  cbv zeta. split.
+  - apply Hw.
+  - cbn [force eval step lookup String.eqb Ascii.eqb Bool.eqb]. apply (Hw n t).
+Qed.
+
+(* and the array contract of the real model applies the element contract to every element, whatever is
+   already pending *)
+Lemma array_contract_always_applies :
+  forall ev c l th es,
+    ev th = Ok (VArr es) -> chk_with ev cfg_real (CArr c) l th = Ok (VArr (map (wrap_elem c l) es)).
+Proof. intros ev c l th es H. cbn [chk_with]. rewrite H. reflexivity. Qed.
